@@ -56,12 +56,17 @@ def _kw(**pairs):
 
 
 def build_evse(sid, e):
+    # e["pos"]: constructor arguments passed by position, in the released order
     if e["type"] == "EVSE":
         mx = float("inf") if e["max"] is None else e["max"]
         cls = LoggingEVSE if e.get("sub") else sut.EVSE
+        if e.get("pos"):
+            return cls(sid, mx, e.get("min", 0))
         return cls(sid, **_kw(max_rate=(mx, float("inf")), min_rate=(e.get("min", 0), 0)))
     if e["type"] == "Deadband":
         mx = float("inf") if e["max"] is None else e["max"]
+        if e.get("pos"):
+            return sut.DeadbandEVSE(sid, e["deadband_end"], mx)
         return sut.DeadbandEVSE(sid, deadband_end=e["deadband_end"], max_rate=mx)
     if e["type"] == "Finite":
         return sut.FiniteRatesEVSE(sid, list(e["rates"]))
